@@ -37,6 +37,7 @@ import (
 	"fmt"
 	"hash/fnv"
 	"math"
+	"math/big"
 	"math/rand"
 	"os"
 	"regexp"
@@ -89,6 +90,10 @@ type lgCmp struct {
 	Pn    int      `json:"pn"`
 	Pd    int      `json:"pd"`
 	Pex   bool     `json:"pex"`
+	Ora   bool     `json:"ora"`   // long runs: the harness evaluates the prescribed method on (tv, n1, u2)
+	U2    int      `json:"u2"`    // 2U of the first (old) retained sample
+	Tv    []int    `json:"tv"`    // tie vector of the pooled retained values
+	Exact bool     `json:"exact"` // the exact distribution is prescribed (sizes within 50, 25 with ties)
 	N1    int      `json:"n1"`
 	N2    int      `json:"n2"`
 	Cm    int      `json:"cm"`
@@ -755,6 +760,21 @@ func lgCompareCmp(c *lgCase, k *lgConc, unit string, er *lgRow, or *benchstat.Ro
 					return false, lgF("utest-exact-p", "%s: stats.MannWhitneyUTest(%v, %v) = %v, exact two-sided p is %d/%d", where, oldR, newR, lp, cmp.Pn, cmp.Pd), ""
 				}
 				p, pIsExact = float64(cmp.Pn)/float64(cmp.Pd), true
+			} else if cmp.Ora && !(cmp.Exact && len(cmp.Tv) < len(oldR)+len(newR) && len(oldR) != len(newR)) {
+				// long runs: the method the model prescribes, evaluated here on the model's tie vector
+				// and 2U (which must be those of the retained samples by pair counting)
+				if tv, u2 := lgTieVector(oldR, newR); u2 != cmp.U2 || !lgSameInts(tv, cmp.Tv) {
+					lgBad("model and harness disagree on the tie vector / 2U of %v, %v: %v %d vs %v %d", oldR, newR, cmp.Tv, cmp.U2, tv, u2)
+				}
+				p = lgUTestOracle(cmp.Tv, len(oldR), len(newR), cmp.U2, cmp.Exact)
+				how := "tie- and continuity-corrected normal approximation"
+				if cmp.Exact {
+					how = "exact distribution, counted"
+				}
+				if math.IsNaN(lp) || math.Abs(lp-p) > 1e-12+1e-9*math.Max(lp, p) {
+					return false, lgF("utest-long-run-p", "%s: stats.MannWhitneyUTest on %d+%d retained values (2U=%d, %d distinct) = %v, the two-sided p (%s) is %v (old %v new %v)",
+						where, len(oldR), len(newR), cmp.U2, len(cmp.Tv), lp, how, p, oldR, newR), ""
+				}
 			} else {
 				p = lp // auxiliary: ties and unequal sizes (known finding of C11)
 			}
@@ -771,6 +791,12 @@ func lgCompareCmp(c *lgCase, k *lgConc, unit string, er *lgRow, or *benchstat.Ro
 		}
 		if cmp.Err == "" {
 			p = lp // auxiliary (C12)
+			// Welch's p by the textbook: t and the Welch-Satterthwaite degrees of freedom in exact
+			// rationals on the retained samples, twice the upper tail of |t| by quadrature of the density
+			if w := lgWelchOracle(oldR, newR); math.IsNaN(lp) || math.Abs(lp-w) > 1e-12+1e-9*math.Max(lp, w) {
+				return false, lgF("ttest-p", "%s: stats.TwoSampleWelchTTest on %d+%d retained values = %v, Welch's two-sided p is %v (old %v new %v)",
+					where, len(oldR), len(newR), lp, w, oldR, newR), ""
+			}
 		}
 	}
 	var shown bool
@@ -849,13 +875,206 @@ func lgCompareCmp(c *lgCase, k *lgConc, unit string, er *lgRow, or *benchstat.Ro
 			return shown, lgF("note-sizes", "%s: note %q, retained sample sizes are %d+%d", where, or.Note, cmp.N1, cmp.N2), ""
 		}
 		np, _ := strconv.ParseFloat(m[1], 64)
-		if math.Abs(np-p) > 0.0005+1e-9 {
+		if math.Abs(np-p) > 0.0005+1e-8 {
 			return shown, lgF("note-p", "%s: note %q, p of the test on the retained samples is %v (exact=%v)", where, or.Note, p, pIsExact), ""
 		}
 	default:
 		lgBad("unknown note class %q", want.Note)
 	}
 	return shown, nil, ""
+}
+
+// ---------------------------------------------------------------- long runs: independent p-values
+
+func lgSameInts(a, b []int) bool {
+	if len(a) != len(b) {
+		return false
+	}
+	for i := range a {
+		if a[i] != b[i] {
+			return false
+		}
+	}
+	return true
+}
+
+// lgTieVector: tie vector of the pooled values and 2U of x1 by pair counting
+// (a pair with x1 > x2 counts 2, a tied pair 1).
+func lgTieVector(x1, x2 []float64) (t []int, u2 int) {
+	for _, a := range x1 {
+		for _, b := range x2 {
+			if a > b {
+				u2 += 2
+			} else if a == b {
+				u2++
+			}
+		}
+	}
+	all := append(append([]float64(nil), x1...), x2...)
+	sort.Float64s(all)
+	for i := 0; i < len(all); {
+		j := i
+		for j < len(all) && all[j] == all[i] {
+			j++
+		}
+		t = append(t, j-i)
+		i = j
+	}
+	return
+}
+
+// lgUTestOracle: the two-sided Mann-Whitney p-value for a pool with tie vector t (groups in
+// increasing order of value), a first sample of n1 values whose 2U is u2.
+//
+//	exact   min(1, 2 min(P(U <= u), P(U >= u))) over all equally likely assignments of the pooled
+//	        values to the two samples, counted by a dynamic programme over the tie groups
+//	        (float64 counts: relative error ~1e-15)
+//	else    the normal approximation with mean n1 n2 / 2, variance n1 n2 / 12 ((N + 1) -
+//	        sum (t^3 - t) / (N (N - 1))) and continuity correction 1/2 towards the mean
+func lgUTestOracle(t []int, n1, n2, u2 int, exact bool) float64 {
+	N := n1 + n2
+	if !exact {
+		ts := 0.0
+		for _, x := range t {
+			f := float64(x)
+			ts += f*f*f - f
+		}
+		fn := float64(N)
+		sigma := math.Sqrt(float64(n1) * float64(n2) / 12 * ((fn + 1) - ts/(fn*(fn-1))))
+		d := float64(u2)/2 - float64(n1)*float64(n2)/2
+		if d > 0 {
+			d -= 0.5
+		} else if d < 0 {
+			d += 0.5
+		}
+		return math.Min(1, math.Erfc(math.Abs(d)/sigma/math.Sqrt2))
+	}
+	choose := func(n, k int) float64 {
+		c := 1.0
+		for i := 1; i <= k; i++ {
+			c = c * float64(n-k+i) / float64(i)
+		}
+		return math.Round(c)
+	}
+	top := 2 * n1 * n2
+	cur := make([][]float64, n1+1) // cur[a][u]: ways to put a of the values seen so far into sample 1 with 2U = u
+	cur[0] = make([]float64, top+1)
+	cur[0][0] = 1
+	sofar := 0
+	for _, tk := range t {
+		next := make([][]float64, n1+1)
+		for a := 0; a <= n1 && a <= sofar; a++ {
+			if cur[a] == nil {
+				continue
+			}
+			for r := 0; r <= tk && a+r <= n1; r++ {
+				if (sofar+tk)-(a+r) > n2 {
+					continue
+				}
+				w := choose(tk, r)
+				add := r * (2*(sofar-a) + (tk - r))
+				if next[a+r] == nil {
+					next[a+r] = make([]float64, top+1)
+				}
+				dst := next[a+r]
+				for u, cnt := range cur[a] {
+					if cnt != 0 {
+						dst[u+add] += cnt * w
+					}
+				}
+			}
+		}
+		cur = next
+		sofar += tk
+	}
+	var le, ge, tot float64
+	for u, cnt := range cur[n1] {
+		tot += cnt
+		if u <= u2 {
+			le += cnt
+		}
+		if u >= u2 {
+			ge += cnt
+		}
+	}
+	return math.Min(1, 2*math.Min(le, ge)/tot)
+}
+
+// lgWelchOracle: Welch's two-sided p-value of two samples with at least two values each and not
+// both constant: t^2 and the Welch-Satterthwaite degrees of freedom in exact rationals, the
+// tail by lgTUpper.
+func lgWelchOracle(x, y []float64) float64 {
+	mv := func(xs []float64) (mean, vr *big.Rat) {
+		n := int64(len(xs))
+		mean, vr = new(big.Rat), new(big.Rat)
+		for _, v := range xs {
+			mean.Add(mean, new(big.Rat).SetFloat64(v))
+		}
+		mean.Quo(mean, new(big.Rat).SetInt64(n))
+		for _, v := range xs {
+			d := new(big.Rat).Sub(new(big.Rat).SetFloat64(v), mean)
+			vr.Add(vr, d.Mul(d, d))
+		}
+		vr.Quo(vr, new(big.Rat).SetInt64(n-1))
+		return
+	}
+	m1, v1 := mv(x)
+	m2, v2 := mv(y)
+	n1, n2 := new(big.Rat).SetInt64(int64(len(x))), new(big.Rat).SetInt64(int64(len(y)))
+	a1, a2 := new(big.Rat).Quo(v1, n1), new(big.Rat).Quo(v2, n2)
+	se2 := new(big.Rat).Add(a1, a2)
+	d := new(big.Rat).Sub(m1, m2)
+	one := big.NewRat(1, 1)
+	den := new(big.Rat).Add(
+		new(big.Rat).Quo(new(big.Rat).Mul(a1, a1), new(big.Rat).Sub(n1, one)),
+		new(big.Rat).Quo(new(big.Rat).Mul(a2, a2), new(big.Rat).Sub(n2, one)))
+	t2, _ := new(big.Rat).Quo(new(big.Rat).Mul(d, d), se2).Float64()
+	dof, _ := new(big.Rat).Quo(new(big.Rat).Mul(se2, se2), den).Float64()
+	if t2 == 0 {
+		return 1
+	}
+	return 2 * lgTUpper(math.Sqrt(t2), dof)
+}
+
+// lgTUpper: upper tail P(T > t), t > 0, of Student's t with v >= 1 degrees of freedom from the
+// density alone (x = sqrt(v) cot(psi); tanh-sinh rule; agrees to 2e-13 with the finite series of
+// Abramowitz & Stegun 26.7.3/4 for integer v).
+func lgTUpper(t, v float64) float64 {
+	if math.IsInf(t, 1) {
+		return 0
+	}
+	a := math.Atan2(math.Sqrt(v), t)
+	lg1, _ := math.Lgamma((v + 1) / 2)
+	lg2, _ := math.Lgamma(v / 2)
+	lsa := math.Log(math.Sin(a))
+	lo := 0.0
+	if v > 1 {
+		lo = math.Asin(math.Sin(a) * math.Exp(-100/(v-1)))
+	}
+	f := func(psi float64) float64 {
+		if v == 1 {
+			return 1
+		}
+		if psi <= 0 {
+			return 0
+		}
+		return math.Exp((v - 1) * (math.Log(math.Sin(psi)) - lsa))
+	}
+	half := (a - lo) / 2
+	const h = 1.0 / 64
+	sum := 0.0
+	for k := -400; k <= 400; k++ {
+		u := math.Pi / 2 * math.Sinh(float64(k)*h)
+		w := math.Pi / 2 * math.Cosh(float64(k)*h) / (math.Cosh(u) * math.Cosh(u))
+		var x float64
+		if u > 0 {
+			x = a - half*(2/(1+math.Exp(2*u)))
+		} else {
+			x = lo + half*(2/(1+math.Exp(-2*u)))
+		}
+		sum += w * f(x)
+	}
+	return math.Exp(lg1-lg2+(v-1)*lsa) / math.Sqrt(math.Pi) * sum * h * half
 }
 
 func lgCompareGeo(c *lgCase, k *lgConc, unit string, et *lgTable, geo *benchstat.Row) *lgFail {
